@@ -129,7 +129,7 @@ def r03a(ctx):
             "value is a literal": any(t == f"isinstance({pred_param}.{side}, Expr)" and not pol for t, pol in facts),
             "column side is a Projection": any(t == f"isinstance({pred_param}.{other}, Projection)" and pol for t, pol in facts),
             "projection of this reader": any(f"{pred_param}.{other}.frame._name" in t and "==" in t and "_name" in t.split("==")[-1] and pol for t, pol in facts),
-            "column read from the column side": f"{pred_param}.{other}." in unparse(tup.elts[0]),
+            "column read from the column side": f"{pred_param}.{other}." in ast.unparse(tup.elts[0]),
         }
         missing = [k for k, v in need.items() if not v]
         if missing:
